@@ -30,6 +30,7 @@ pub mod cli {
 mod util;
 mod c17;
 mod c18;
+mod c19;
 
 use std::path::PathBuf;
 
@@ -50,6 +51,8 @@ fn main() {
     match prop {
         "C17" => c17::run(&mut w, thorough, seed),
         "C18" => c18::run(&mut w, thorough, seed),
+        "C19" => c19::run(&mut w, thorough, seed, false),
+        "C15" => c19::run(&mut w, thorough, seed, true),
         other => {
             eprintln!("unknown property {other}");
             std::process::exit(2);
